@@ -17,11 +17,20 @@ TECHNIQUE = ("model-based generated search: Hypothesis draws edit scripts and "
              "callbacks for the abort path")
 RULE = ("base tree + 1-3 rounds of generated edits (write, mkdir, symlink, add, "
         "rename/move, remove, chmod, delete-from-disk, unversion-keep) on a real "
-        "2a / pack-0.92 working tree, each followed by a commit with generated "
-        "specific_files (any subset of basis and working paths), exclude list, "
-        "or neither; fault kind: the same prefix, then a commit with one "
-        "injected failure at a generated point (message callback, k-th file "
-        "read, k-th repository transport operation). Non-trivial: proper "
+        "2a / pack-0.92 working tree (re-opened for every step or one "
+        "long-lived object), each followed by a commit with generated "
+        "specific_files (any subset of basis and working paths, also the empty "
+        "list), exclude list, both, or neither, with the quiet or the logging "
+        "reporter; merge-commit kind: a merge of a sprouted branch (content, "
+        "mode, symlink target, rename, add) plus post-merge edits (chmod, "
+        "rewrite, append, put back to this branch's version, unversion, "
+        "rename, retarget), optionally a ghost merge parent, and the refusals "
+        "of selected-file / excluding / conflicted merge commits; fault kind: "
+        "the same prefix, then a commit with one injected failure at a "
+        "generated point (message callback, k-th file read, k-th reported "
+        "change, k-th repository transport operation), one third with the "
+        "caller's own write lock held across the failed commit and the next "
+        "one. Non-trivial: proper "
         "non-empty selection while an unselected id has a pending change; a "
         "rename whose two ends fall on different sides of the selection; an "
         "exclude list that hits a changed path; a fault after the first text "
@@ -45,7 +54,8 @@ LEVEL_TEXT = ("Sampled model-based exploration of working-tree states and path "
 LEVEL_NOTE = ("bzr formats 2a and pack-0.92 (file-id space); trees bounded by the "
               "generator; injected failures are transport errors on the "
               "repository's pack/index files, exceptions from the message "
-              "callback and from reading a working file; git trees are covered "
+              "callback, from reading a working file and from the tree's change "
+              "iterator; git trees are covered "
               "by C09/C35 only.")
 REGISTERED = True
 NONTRIVIAL_FLOOR = {"quick": 40, "thorough": 400}
